@@ -18,4 +18,10 @@ RULE = 'cycle-biased graphs (single pointer, interface, slice, by-name edges), n
 
 
 def run(ctx):
-    return wiring.run_family(ctx, "Corr.Check_C02", wiring.std_scenarios(PROFILES), RULE)
+    def post(ctx, by_id, cov, out):
+        n = sum(out["LH"])
+        cov["cyclic_scenarios_satisfying_c02_cycles_succeed_hypotheses"] = n
+        ctx.oblige("non-vacuity: some cyclic scenarios of this run satisfy the hypotheses of c02_cycles_succeed", n > 0,
+                   "%d scenarios" % n)
+    return wiring.run_family(ctx, "Corr.Check_C02", wiring.std_scenarios(PROFILES), RULE, post=post,
+                             extra_defs={"LH": "count_live_hyp"})
